@@ -1,6 +1,11 @@
 package sim
 
 import (
+	"math/big"
+	"time"
+
+	bridgetypes "github.com/tellor-io/layer/x/bridge/types"
+	oracletypes "github.com/tellor-io/layer/x/oracle/types"
 	minttypes "github.com/tellor-io/layer/x/mint/types"
 
 	sdk "github.com/cosmos/cosmos-sdk/types"
@@ -45,7 +50,50 @@ func (g *Gen) govSteps(msgs ...sdk.Msg) []func() [][]byte {
 	return []func() [][]byte{submit, vote}
 }
 
+// depositSteps: the genesis validators (who are reporters by then) report deposit `id`, a minority may report a
+// different value, the 2000-block window is fast-forwarded, and claims are tried just before and after 12 h.
+func (g *Gen) depositSteps(id uint64, amountTRB, tipTRB int64, wait int) []func() [][]byte {
+	rcpt := g.c.W.Users[int(id)%len(g.c.W.Users)]
+	mk := func(a, t int64) string {
+		return DepositValue([]byte{byte(id), 9, 9}, rcpt.Bech(), new(big.Int).Mul(big.NewInt(a), big.NewInt(1e18)), new(big.Int).Mul(big.NewInt(t), big.NewInt(1e18)))
+	}
+	good := mk(amountTRB, tipTRB)
+	report := func() [][]byte {
+		var out [][]byte
+		for i, k := range g.c.W.Vals[:g.c.W.Cfg.NumVals] {
+			if g.tb.Used(k.Op) {
+				continue
+			}
+			v := good
+			if i == g.c.W.Cfg.NumVals-1 && id%2 == 0 {
+				v = mk(amountTRB+1, tipTRB) // the weakest validator disagrees
+			}
+			out = append(out, g.tx(k.Op, &oracletypes.MsgSubmitValue{Creator: k.Op.Bech(), QueryData: BridgeQuery(true, id), Value: v}))
+		}
+		g.FastForward = 2001
+		return out
+	}
+	claim := func(gap time.Duration) func() [][]byte {
+		return func() [][]byte {
+			g.ForceGap = gap
+			s := g.free(g.user)
+			if s == nil {
+				return nil
+			}
+			return [][]byte{g.tx(s, &bridgetypes.MsgClaimDepositsRequest{Creator: s.Bech(), DepositIds: []uint64{id}, Indices: []uint64{0}})}
+		}
+	}
+	steps := []func() [][]byte{}
+	for i := 0; i < wait; i++ {
+		steps = append(steps, func() [][]byte { return nil })
+	}
+	return append(steps, report, claim(12*time.Hour-2*time.Second), claim(time.Second), claim(3*time.Second), claim(6*time.Second))
+}
+
 func init() {
+	fragments["deposit1"] = func(g *Gen) []func() [][]byte { return g.depositSteps(1, 100, 0, 8) }
+	fragments["deposit2"] = func(g *Gen) []func() [][]byte { return g.depositSteps(2, 250, 3, 1) }
+	fragments["deposit3"] = func(g *Gen) []func() [][]byte { return g.depositSteps(3, 7, 7, 1) }
 	fragments["mintInit"] = func(g *Gen) []func() [][]byte {
 		// give the chain a few blocks first
 		wait := func() [][]byte { return nil }
